@@ -17,12 +17,26 @@ def calls_matching(fb, body, regex):
     return [c for c in fb.calls(body) if not c.indirect and (r.search(c.rpath or "") or r.search(c.path or ""))]
 
 
+def created_closures(fb, body, depth=0):
+    """bodies of the closures created in `body` (also in code inlined from a new helper), transitively"""
+    out = []
+    for blk in body.get("blocks") or []:
+        for st in blk["s"]:
+            r = st["r"]
+            if r.get("k") == "agg" and r.get("ak") == "closure" and r.get("closure") in fb.bodies:
+                cb = fb.bodies[r["closure"]]
+                if all(cb is not x for x in out):
+                    out.append(cb)
+                    if depth < 3:
+                        out += [x for x in created_closures(fb, cb, depth + 1) if all(x is not y for y in out)]
+    return out
+
+
 def deep_calls_matching(fb, body, regex):
     """calls_matching over the body and the closures it creates (a loop body that became the closure of an iterator adaptor)"""
     out = list(calls_matching(fb, body, regex))
-    for k, cb in fb.bodies.items():
-        if cb.get("kind") == "Closure" and (cb.get("parent") == body["key"] or k.startswith(body["key"] + "::")):
-            out += calls_matching(fb, cb, regex)
+    for cb in created_closures(fb, body):
+        out += calls_matching(fb, cb, regex)
     return out
 
 
